@@ -312,14 +312,14 @@ def gen_cases(chk):
     paths = tlc_replays("MC_Workbook_replay.cfg" if quick else "MC_Workbook_replay_d3.cfg", "replay generation",
                         workers=4)
     cases += [from_tlc(rp, rng) for rp in paths]
-    nsim = 300 if quick else 6000
+    nsim = 300 if quick else 4000
     sims = tlc_replays("MC_Workbook_sim.cfg", "TLC simulation", workers=1, simulate=f"num={nsim}",
                        extra=["-depth", "60", "-seed", str(chk.seed)])
     cases += [from_tlc(rp, rng) for rp in sims]
     n_tlc = len(cases)
     bnd = boundary_cases()
     cases += bnd
-    nrand = 800 if quick else 20000
+    nrand = 800 if quick else 12000
     for k in range(nrand):
         big = (not quick) and k % 200 == 0
         cases.append(random_case(rng, 150 if big else rng.randint(1, 40), controls=(k % 4 == 3)))
